@@ -12,6 +12,32 @@ def clean_env(extra=None):
     return e
 
 
+def kill_orphans(pgid):
+    """Kill what is left of a scenario's process group AFTER its leader has been reaped.  The group id is the leader's pid,
+    and a pid is free for reuse as soon as no process carries it as pid, group or session id: a blind `killpg` here could hit
+    a stranger that was given the same number meanwhile (another check running beside this one; this machine wraps pids at
+    32768 and the scenarios start thousands of processes a minute).  While orphans of ours exist the number is NOT free, so:
+    if a process with that pid exists now it is a stranger and we have no orphans — do nothing; otherwise every process in
+    that group and session is ours."""
+    import signal
+    if os.path.exists("/proc/%d" % pgid):
+        return
+    for pid in os.listdir("/proc"):
+        if not pid.isdigit():
+            continue
+        try:
+            st = open("/proc/%s/stat" % pid).read()
+            f = st[st.rindex(")") + 2:].split()
+            pgrp, sid = int(f[2]), int(f[3])
+        except (OSError, ValueError, IndexError):
+            continue
+        if pgrp == pgid and sid == pgid:
+            try:
+                os.kill(int(pid), signal.SIGKILL)
+            except (ProcessLookupError, PermissionError):
+                pass
+
+
 class Project:
     def __init__(self, prefix="redo-verif-"):
         self.root = os.path.realpath(tempfile.mkdtemp(prefix=prefix))
@@ -58,10 +84,7 @@ class Project:
                 pass
             out, err = p.communicate()
             rc = -999
-        try:
-            os.killpg(p.pid, signal.SIGKILL)      # orphans of a killed tree
-        except (ProcessLookupError, PermissionError):
-            pass
+        kill_orphans(p.pid)                       # orphans of a killed tree
         return rc, out.decode("utf-8", "replace"), err.decode("utf-8", "replace")
 
     def destroy(self):
